@@ -100,6 +100,10 @@ def empty_state(ctx) -> None:
             guarded = (param, True) in gs
             ok = ok and guarded
         ctx.check(ok, 'C13.empty-state', fn, f'{ci.qual}.set_state leaves the actor untouched for an empty state ({len(muts)} mutation(s) all under a non-empty guard)', fn.node, key=f'{ci.qual}:empty')
+        # ... and accepts it: the empty state is what get_state of a stateless actor hands out (and what its pickle carries), so
+        # no refusal may be reachable for it either
+        raises = [r for r in core.walk_local(fn.node) if isinstance(r, ast.Raise)]
+        ctx.check(all((param, True) in cfg.cguards(r, fn.node, siblings=True) for r in raises), 'C13.empty-state', fn, f'{ci.qual}.set_state refuses (raises) only for a non-empty state: the empty state is a no-op for every flavour ({len(raises)} raise(s))', raises[0] if raises else fn.node, key=f'{ci.qual}:empty-raise')
     ctx.floor('C13.set_state-impls', n, 2)
     red = prog.func(f'{USER}:Preset.reduce')
     sets = [c for c in core.calls_in(red.node) if core.src(c.func) == 'self.set']
@@ -296,3 +300,6 @@ def run(ctx) -> None:
     trained_marker(ctx)
     pickling(ctx)
     shared.argname_scope(ctx, ('forml.flow._task', 'forml.pipeline.wrap', 'forml.flow._code.target'), floor=2)
+    # the wrappers delegate by *presence* of an origin attribute (hasattr), never by the truth of its value: a falsy state or
+    # parameter of the origin must not fall back to the wrapper's own attribute
+    ctx.floor('R-ATTRPRESENCE', shared.r_attr_presence(ctx, ctx.prog.functions([m for m in ctx.prog.modules if m.startswith(('forml.flow._task', 'forml.pipeline.wrap', 'forml.flow._code.target', 'forml.pipeline.payload'))])), 1)
